@@ -7,8 +7,12 @@ use crate::mock::{block_on_budget, Bus, BusEv, MockDelay, MockIv, MockSpi};
 use crate::trace::bytes;
 use lora_modulation::{Bandwidth, CodingRate, SpreadingFactor};
 use lora_phy::mod_params::{DutyCycleParams, RadioError, RadioMode};
+use lora_phy::mod_traits::RadioKind;
 use lora_phy::sx126x::{self, Sx1262, Sx126x, TcxoCtrlVoltage};
+use lora_phy::sx127x::{self, Sx1276, Sx127x};
+use lora_phy::lorawan_radio::{Error as LwError, LorawanRadio};
 use lora_phy::{LoRa, RxMode};
+use lorawan_device::async_device::radio::{PhyRxTx, RfConfig, RxConfig, RxMode as LwRxMode, RxStatus, TxConfig};
 use serde::{Deserialize, Serialize};
 use serde_json::{json, Value};
 use std::cell::RefCell;
@@ -42,8 +46,22 @@ const IRQ_CAD_DONE: u16 = 0x0080;
 const IRQ_CAD_DET: u16 = 0x0100;
 const IRQ_TIMEOUT: u16 = 0x0200;
 
-/// interrupt outcome variants worth distinguishing per call
-pub fn irq_variants(call: &str) -> Vec<Vec<u16>> {
+/// interrupt outcome variants worth distinguishing per call (flag words as the chip reports them)
+pub fn irq_variants(chip: &str, call: &str) -> Vec<Vec<u16>> {
+    let call = match call {
+        "lw_tx" => "tx",
+        "lw_rx_single" | "lw_rx_cont" => "complete_rx",
+        c => c,
+    };
+    if base_chip(chip) == "sx1276" {
+        // RegIrqFlags: RxTimeout 0x80, RxDone 0x40, PayloadCrcError 0x20, ValidHeader 0x10, TxDone 0x08, CadDone 0x04, CadDetected 0x01
+        return match call {
+            "tx" => vec![vec![0x08], vec![0, 0x08]],
+            "complete_rx" => vec![vec![0x40], vec![0x80], vec![0x10, 0x40], vec![0x40 | 0x20], vec![0, 0, 0x40], vec![0x10, 0x80]],
+            "cad" => vec![vec![0x04], vec![0x05]],
+            _ => vec![vec![]],
+        };
+    }
     match call {
         "tx" => vec![vec![IRQ_TX_DONE], vec![IRQ_TIMEOUT], vec![0, IRQ_TX_DONE]],
         "complete_rx" => vec![
@@ -61,9 +79,30 @@ pub fn irq_variants(call: &str) -> Vec<Vec<u16>> {
 
 struct Script {
     irq: VecDeque<u16>,
+    /// SX127x register file (so that read-modify-write sequences see what was written)
+    regs: [u8; 128],
 }
 
-type Dev = LoRa<Sx126x<MockSpi, MockIv, Sx1262>, MockDelay>;
+type Dev6 = LoRa<Sx126x<MockSpi, MockIv, Sx1262>, MockDelay>;
+type Dev7 = LoRa<Sx127x<MockSpi, MockIv, Sx1276>, MockDelay>;
+
+type Lw6 = LorawanRadio<Sx126x<MockSpi, MockIv, Sx1262>, MockDelay, 22, 0>;
+type Lw7 = LorawanRadio<Sx127x<MockSpi, MockIv, Sx1276>, MockDelay, 20, 0>;
+
+enum Dev {
+    A(Dev6),
+    B(Dev7),
+    /// the same drivers behind the LoRaWAN radio adapter (chips "sx1262-lw", "sx1276-lw")
+    C(Lw6),
+    D(Lw7),
+}
+
+/// calls of the LoRaWAN adapter (`PhyRxTx`)
+pub const LW_CALLS: [&str; 6] = ["lw_tx", "lw_setup_single", "lw_setup_cont", "lw_rx_single", "lw_rx_cont", "lw_low_power"];
+
+fn base_chip(chip: &str) -> &str {
+    chip.strip_suffix("-lw").unwrap_or(chip)
+}
 
 fn mode_code(m: RadioMode) -> &'static str {
     match m {
@@ -103,19 +142,40 @@ pub struct PhyRun {
     bus: Rc<RefCell<Bus>>,
     script: Rc<RefCell<Script>>,
     dev: Option<Dev>,
+    chip: String,
 }
 
 impl PhyRun {
-    fn new() -> PhyRun {
+    fn new(chip: &str) -> PhyRun {
         let bus = Bus::new();
-        let script = Rc::new(RefCell::new(Script { irq: VecDeque::new() }));
+        let script = Rc::new(RefCell::new(Script { irq: VecDeque::new(), regs: [0; 128] }));
         let s2 = script.clone();
+        let is127 = base_chip(chip) == "sx1276";
         bus.borrow_mut().responder = Box::new(move |w: &[u8], r: &mut [u8]| {
             r.fill(0);
+            let mut sc = s2.borrow_mut();
+            if is127 {
+                // the first written byte is the register address (bit 7 clear = read); reads auto-increment
+                let Some(&a) = w.first() else { return };
+                let addr = (a & 0x7f) as usize;
+                for (i, b) in r.iter_mut().enumerate() {
+                    let reg = if addr == 0 { 0 } else { (addr + i) & 0x7f };
+                    *b = if reg == 0x12 {
+                        // RegIrqFlags: scripted; when the script is exhausted every flag is raised so that
+                        // polling loops terminate
+                        sc.irq.pop_front().map(|f| f as u8).unwrap_or(0xff)
+                    } else if reg == 0x13 {
+                        5 // RegRxNbBytes
+                    } else {
+                        sc.regs[reg]
+                    };
+                }
+                return;
+            }
             match w.first() {
                 // GetIrqStatus: status byte then the 16-bit flag word
                 Some(0x12) if r.len() == 2 => {
-                    let f = s2.borrow_mut().irq.pop_front().unwrap_or(0);
+                    let f = sc.irq.pop_front().unwrap_or(0x03ff);
                     r[0] = (f >> 8) as u8;
                     r[1] = f as u8;
                 }
@@ -127,15 +187,40 @@ impl PhyRun {
                 _ => {}
             }
         });
-        PhyRun { bus, script, dev: None }
+        PhyRun { bus, script, dev: None, chip: chip.to_string() }
+    }
+
+    /// SX127x: remember register writes (the responder serves them back)
+    fn absorb_writes(&mut self) {
+        if base_chip(&self.chip) != "sx1276" {
+            return;
+        }
+        let b = self.bus.borrow();
+        let mut sc = self.script.borrow_mut();
+        for e in &b.log {
+            if let BusEv::Spi { w, ok: true, r } = e {
+                if r.is_empty() && w.len() >= 2 && w[0] & 0x80 != 0 {
+                    let addr = (w[0] & 0x7f) as usize;
+                    if addr != 0 {
+                        for (i, v) in w[1..].iter().enumerate() {
+                            sc.regs[(addr + i) & 0x7f] = *v;
+                        }
+                    }
+                }
+            }
+        }
     }
 
     fn state(&self) -> (String, u8, u8) {
-        match &self.dev {
-            Some(d) => {
-                let (m, c, ci) = d.verif_state();
-                (mode_code(m).to_string(), c as u8, ci as u8)
-            }
+        let st = match &self.dev {
+            Some(Dev::A(d)) => Some(d.verif_state()),
+            Some(Dev::B(d)) => Some(d.verif_state()),
+            Some(Dev::C(d)) => Some(d.verif_state()),
+            Some(Dev::D(d)) => Some(d.verif_state()),
+            None => None,
+        };
+        match st {
+            Some((m, c, ci)) => (mode_code(m).to_string(), c as u8, ci as u8),
             None => ("none".into(), 1, 1),
         }
     }
@@ -151,85 +236,140 @@ impl PhyRun {
         self.script.borrow_mut().irq = st.irq.iter().copied().collect();
         let (pre_mode, pre_cold, _) = self.state();
         let call = st.call.clone();
-        let res: Result<Option<Result<(), RadioError>>, String> = if call == "new" {
+        let mut timed_out = 0u8;
+        let res: Result<Option<Result<(), String>>, String> = if call == "new" {
             let bus = self.bus.clone();
+            let chip = self.chip.clone();
             let r = catch(|| {
-                let rk = Sx126x::new(
-                    MockSpi(bus.clone()),
-                    MockIv(bus.clone()),
-                    sx126x::Config { chip: Sx1262, tcxo_ctrl: Some(TcxoCtrlVoltage::Ctrl1V7), use_dcdc: true, rx_boost: false },
-                );
-                block_on_budget(LoRa::new(rk, true, MockDelay), 16)
+                let lw = chip.ends_with("-lw");
+                if base_chip(&chip) == "sx1276" {
+                    let rk = Sx127x::new(
+                        MockSpi(bus.clone()),
+                        MockIv(bus.clone()),
+                        sx127x::Config { chip: Sx1276, tcxo_used: true, tx_boost: true, rx_boost: false },
+                    );
+                    block_on_budget(LoRa::new(rk, true, MockDelay), 16).map(|r| r.map(|d| if lw { Dev::D(d.into()) } else { Dev::B(d) }))
+                } else {
+                    let rk = Sx126x::new(
+                        MockSpi(bus.clone()),
+                        MockIv(bus.clone()),
+                        sx126x::Config { chip: Sx1262, tcxo_ctrl: Some(TcxoCtrlVoltage::Ctrl1V7), use_dcdc: true, rx_boost: false },
+                    );
+                    block_on_budget(LoRa::new(rk, true, MockDelay), 16).map(|r| r.map(|d| if lw { Dev::C(d.into()) } else { Dev::A(d) }))
+                }
             });
             match r {
                 Ok(Some(Ok(d))) => {
                     self.dev = Some(d);
                     Ok(Some(Ok(())))
                 }
-                Ok(Some(Err(e))) => Ok(Some(Err(e))),
+                Ok(Some(Err(e))) => Ok(Some(Err(err_name(&e)))),
                 Ok(None) => Ok(None),
                 Err(p) => Err(p),
             }
         } else {
-            let Some(dev) = self.dev.as_mut() else {
-                return json!({"ev": "phy", "call": call, "skipped": 1});
+            let plain = |r: Option<Result<(), RadioError>>| r.map(|x| x.map_err(|e| err_name(&e)));
+            let mut to = 0u8;
+            let r = match self.dev.as_mut() {
+                None => return json!({"ev": "phy", "call": call, "skipped": 1}),
+                Some(Dev::A(d)) => catch(|| plain(do_call(d, &call))),
+                Some(Dev::B(d)) => catch(|| plain(do_call(d, &call))),
+                Some(Dev::C(d)) => catch(|| do_lw_call(d, &call, &mut to)),
+                Some(Dev::D(d)) => catch(|| do_lw_call(d, &call, &mut to)),
             };
-            let freq = 868_100_000u32;
-            let mdl = dev
-                .create_modulation_params(SpreadingFactor::_7, Bandwidth::_125KHz, CodingRate::_4_5, freq)
-                .expect("modulation params");
-            let rx_pkt = dev.create_rx_packet_params(8, false, 255, true, true, &mdl).expect("packet params");
-            catch(|| {
-                let budget = 16;
-                match call.as_str() {
-                    "init" => block_on_budget(dev.init(), budget),
-                    "sleep_warm" => block_on_budget(dev.sleep(true), budget),
-                    "sleep_cold" => block_on_budget(dev.sleep(false), budget),
-                    "prep_tx" => {
-                        let mut tx_pkt = dev.create_tx_packet_params(8, false, true, false, &mdl).unwrap();
-                        block_on_budget(dev.prepare_for_tx(&mdl, &mut tx_pkt, 14, &[1, 2, 3, 4]), budget)
-                    }
-                    "tx" => block_on_budget(dev.tx(), budget),
-                    "prep_rx_single" => block_on_budget(dev.prepare_for_rx(RxMode::Single(20), &mdl, &rx_pkt), budget),
-                    "prep_rx_cont" => block_on_budget(dev.prepare_for_rx(RxMode::Continuous, &mdl, &rx_pkt), budget),
-                    "prep_rx_duty" => block_on_budget(
-                        dev.prepare_for_rx(RxMode::DutyCycle(DutyCycleParams { rx_time: 640, sleep_time: 6400 }), &mdl, &rx_pkt),
-                        budget,
-                    ),
-                    "start_rx" => block_on_budget(dev.start_rx(), budget),
-                    "complete_rx" => {
-                        let mut buf = [0u8; 64];
-                        block_on_budget(dev.complete_rx(&rx_pkt, &mut buf), budget).map(|r| r.map(|_| ()))
-                    }
-                    "switch_ch" => block_on_budget(dev.rx_switch_channel(868_300_000), budget),
-                    "listen" => block_on_budget(dev.listen(freq, Bandwidth::_125KHz), budget),
-                    "prep_cad" => block_on_budget(dev.prepare_for_cad(&mdl), budget),
-                    "cad" => block_on_budget(dev.cad(&mdl), budget).map(|r| r.map(|_| ())),
-                    "sync_word" => block_on_budget(dev.set_lora_sync_word(0x1424), budget),
-                    other => panic!("unknown call {other}"),
-                }
-            })
+            timed_out = to;
+            r
         };
+        self.absorb_writes();
         let (r, err) = match &res {
             Ok(Some(Ok(()))) => ("ok", String::new()),
-            Ok(Some(Err(e))) => ("err", err_name(e)),
+            Ok(Some(Err(e))) => ("err", e.clone()),
             Ok(None) => ("cancelled", String::new()),
             Err(p) => ("panic", p.clone()),
         };
         let (mode, cold, calimg) = self.state();
         let b = self.bus.borrow();
-        json!({"ev": "phy", "chip": "sx1262", "call": call, "irq": st.irq, "fault": st.fault, "cancel": st.cancel as u8,
+        json!({"ev": "phy", "chip": self.chip, "call": call, "irq": st.irq, "fault": st.fault, "cancel": st.cancel as u8,
                "pre_mode": pre_mode, "pre_cold": pre_cold, "res": r, "err": err,
-               "mode": mode, "cold": cold, "calimg": calimg, "bus": bus_json(&b.log), "skipped": 0})
+               "mode": mode, "cold": cold, "calimg": calimg, "bus": bus_json(&b.log), "skipped": 0, "timed_out": timed_out})
+    }
+}
+
+/// One API call on either driver.
+fn do_call<RK: RadioKind>(dev: &mut LoRa<RK, MockDelay>, call: &str) -> Option<Result<(), RadioError>> {
+    let freq = 868_100_000u32;
+    let mdl = dev
+        .create_modulation_params(SpreadingFactor::_7, Bandwidth::_125KHz, CodingRate::_4_5, freq)
+        .expect("modulation params");
+    let rx_pkt = dev.create_rx_packet_params(8, false, 255, true, true, &mdl).expect("packet params");
+    let budget = 16;
+    match call {
+        "init" => block_on_budget(dev.init(), budget),
+        "sleep_warm" => block_on_budget(dev.sleep(true), budget),
+        "sleep_cold" => block_on_budget(dev.sleep(false), budget),
+        "prep_tx" => {
+            let mut tx_pkt = dev.create_tx_packet_params(8, false, true, false, &mdl).unwrap();
+            block_on_budget(dev.prepare_for_tx(&mdl, &mut tx_pkt, 14, &[1, 2, 3, 4]), budget)
+        }
+        "tx" => block_on_budget(dev.tx(), budget),
+        "prep_rx_single" => block_on_budget(dev.prepare_for_rx(RxMode::Single(20), &mdl, &rx_pkt), budget),
+        "prep_rx_cont" => block_on_budget(dev.prepare_for_rx(RxMode::Continuous, &mdl, &rx_pkt), budget),
+        "prep_rx_duty" => block_on_budget(
+            dev.prepare_for_rx(RxMode::DutyCycle(DutyCycleParams { rx_time: 640, sleep_time: 6400 }), &mdl, &rx_pkt),
+            budget,
+        ),
+        "start_rx" => block_on_budget(dev.start_rx(), budget),
+        "complete_rx" => {
+            let mut buf = [0u8; 64];
+            block_on_budget(dev.complete_rx(&rx_pkt, &mut buf), budget).map(|r| r.map(|_| ()))
+        }
+        "switch_ch" => block_on_budget(dev.rx_switch_channel(868_300_000), budget),
+        "listen" => block_on_budget(dev.listen(freq, Bandwidth::_125KHz), budget),
+        "prep_cad" => block_on_budget(dev.prepare_for_cad(&mdl), budget),
+        "cad" => block_on_budget(dev.cad(&mdl), budget).map(|r| r.map(|_| ())),
+        "sync_word" => block_on_budget(dev.set_lora_sync_word(0x1424), budget),
+        other => panic!("unknown call {other}"),
+    }
+}
+
+/// One call of the LoRaWAN adapter on either driver.  `timed_out` is set when rx_single reports RxTimeout
+/// (the adapter turns that error into an Ok value).
+fn do_lw_call<R: PhyRxTx<PhyError = LwError>>(dev: &mut R, call: &str, timed_out: &mut u8) -> Option<Result<(), String>> {
+    let rf = RfConfig {
+        frequency: 868_100_000,
+        bb: lora_modulation::BaseBandModulationParams::new(SpreadingFactor::_7, Bandwidth::_125KHz, CodingRate::_4_5),
+        max_payload_len: 255,
+    };
+    let budget = 16;
+    let name = |e: LwError| match e {
+        LwError::Radio(e) => err_name(&e),
+        LwError::NoRxParams => "NoRxParams".to_string(),
+    };
+    let mut buf = [0u8; 64];
+    match call {
+        "lw_tx" => block_on_budget(dev.tx(TxConfig { pw: 14, rf }, &[1, 2, 3, 4]), budget).map(|r| r.map(|_| ()).map_err(name)),
+        "lw_setup_single" => block_on_budget(dev.setup_rx(RxConfig { rf, mode: LwRxMode::Single { ms: 50 } }), budget).map(|r| r.map_err(name)),
+        "lw_setup_cont" => block_on_budget(dev.setup_rx(RxConfig { rf, mode: LwRxMode::Continuous }), budget).map(|r| r.map_err(name)),
+        "lw_rx_single" => block_on_budget(dev.rx_single(&mut buf), budget).map(|r| {
+            r.map(|s| {
+                if let RxStatus::RxTimeout = s {
+                    *timed_out = 1;
+                }
+            })
+            .map_err(name)
+        }),
+        "lw_rx_cont" => block_on_budget(dev.rx_continuous(&mut buf), budget).map(|r| r.map(|_| ()).map_err(name)),
+        "lw_low_power" => block_on_budget(dev.low_power(), budget).map(|r| r.map_err(name)),
+        other => panic!("unknown adapter call {other}"),
     }
 }
 
 /// Run one history (a fresh chip + driver, then the steps); emits one event per call, first a `new` event.
-pub fn run_history(out: &mut crate::trace::TraceWriter, steps: &[Step]) {
-    let mut run = PhyRun::new();
+pub fn run_history(out: &mut crate::trace::TraceWriter, chip: &str, steps: &[Step]) {
+    let mut run = PhyRun::new(chip);
     let new = Step { call: "new".into(), irq: vec![], fault: -1, cancel: false };
     let mut ev = run.step(&new);
-    ev["hist"] = json!(serde_json::to_string(steps).unwrap());
+    ev["hist"] = json!(serde_json::to_string(&json!({"chip": chip, "steps": steps})).unwrap());
     ev["first"] = json!(1);
     out.emit(&ev);
     for st in steps {
@@ -244,10 +384,11 @@ pub fn run_history(out: &mut crate::trace::TraceWriter, steps: &[Step]) {
     }
 }
 
-fn alphabet() -> Vec<Step> {
+fn alphabet(chip: &str) -> Vec<Step> {
     let mut v = vec![];
-    for c in CALLS {
-        for irq in irq_variants(c) {
+    let calls: &[&str] = if chip.ends_with("-lw") { &LW_CALLS } else { &CALLS };
+    for c in calls {
+        for irq in irq_variants(chip, c) {
             v.push(Step { call: c.to_string(), irq, fault: -1, cancel: false });
         }
     }
@@ -259,9 +400,17 @@ fn alphabet() -> Vec<Step> {
 pub fn vh_phy(a: &Args) {
     let depth = a.get_usize("depth", if a.thorough { 3 } else { 2 });
     let mut out = Shards::create(&a.out, "phy", a.shards);
-    let alpha = alphabet();
     let mut h = 0usize;
     let mut nhist = 0usize;
+    let chips: Vec<String> = a.get("chips").unwrap_or("sx1262,sx1276,sx1262-lw,sx1276-lw").split(',').map(|s| s.to_string()).collect();
+    for chip in &chips {
+    let chip = chip.as_str();
+    // the adapter's alphabet is small: one level deeper at the same cost
+    let fdepth = depth;
+    let depth = if chip.ends_with("-lw") { depth + 1 } else { depth };
+    let alpha = alphabet(chip);
+    let (done_tx, to_tx, done_rx, to_rx, pre_rx, herr, cad): (u16, u16, u16, u16, u16, u16, u16) =
+        if base_chip(chip) == "sx1276" { (0x08, 0x08, 0x40, 0x80, 0x10, 0x10, 0x04) } else { (IRQ_TX_DONE, IRQ_TIMEOUT, IRQ_RX_DONE, IRQ_TIMEOUT, IRQ_PREAMBLE, IRQ_HEADER_ERR, IRQ_CAD_DONE) };
     // all sequences up to `depth`
     let mut seqs: Vec<Vec<Step>> = vec![vec![]];
     for _ in 0..depth {
@@ -283,30 +432,41 @@ pub fn vh_phy(a: &Args) {
     }
     let full: Vec<&Vec<Step>> = seqs.iter().filter(|s| s.len() == depth).collect();
     for s in &full {
-        run_history(out.shard(h), s);
+        run_history(out.shard(h), chip, s);
         h += 1;
         nhist += 1;
     }
     // structured longer histories around sleep / re-initialisation (clause 3 needs: configure, lose the
     // configuration, prepare again, start): [A, S, B, C] and [A, S, B, C, D]
     let st = |c: &str, irq: Vec<u16>| Step { call: c.to_string(), irq, fault: -1, cancel: false };
-    let firsts = ["", "prep_tx", "prep_rx_single", "prep_rx_cont", "prep_cad", "listen"];
-    let losers = ["", "sleep_cold", "sleep_warm", "init"];
-    let pairs: Vec<Vec<Step>> = vec![
-        vec![st("prep_tx", vec![]), st("tx", vec![IRQ_TX_DONE])],
-        vec![st("prep_tx", vec![]), st("tx", vec![IRQ_TIMEOUT])],
-        vec![st("prep_rx_single", vec![]), st("start_rx", vec![]), st("complete_rx", vec![IRQ_RX_DONE])],
-        vec![st("prep_rx_single", vec![]), st("start_rx", vec![]), st("complete_rx", vec![IRQ_TIMEOUT])],
-        vec![st("prep_rx_cont", vec![]), st("start_rx", vec![]), st("complete_rx", vec![IRQ_HEADER_ERR, IRQ_TIMEOUT])],
-        vec![st("prep_rx_duty", vec![]), st("start_rx", vec![]), st("complete_rx", vec![IRQ_PREAMBLE, IRQ_RX_DONE])],
+    let lw = chip.ends_with("-lw");
+    let firsts: Vec<&str> = if lw { vec!["", "lw_tx", "lw_setup_single", "lw_setup_cont"] } else { vec!["", "prep_tx", "prep_rx_single", "prep_rx_cont", "prep_cad", "listen"] };
+    let losers: Vec<&str> = if lw { vec!["", "lw_low_power"] } else { vec!["", "sleep_cold", "sleep_warm", "init"] };
+    let (lose2, reprep) = if lw { ("lw_low_power", "lw_setup_single") } else { ("sleep_cold", "prep_rx_single") };
+    let pairs: Vec<Vec<Step>> = if lw { vec![
+        vec![st("lw_tx", vec![done_tx])],
+        vec![st("lw_tx", vec![to_tx])],
+        vec![st("lw_tx", vec![done_tx]), st("lw_setup_single", vec![]), st("lw_rx_single", vec![to_rx]), st("lw_setup_single", vec![]), st("lw_rx_single", vec![done_rx])],
+        vec![st("lw_tx", vec![done_tx]), st("lw_setup_single", vec![]), st("lw_rx_single", vec![pre_rx, done_rx]), st("lw_low_power", vec![])],
+        vec![st("lw_setup_single", vec![]), st("lw_rx_single", vec![to_rx]), st("lw_rx_single", vec![done_rx])],
+        vec![st("lw_setup_cont", vec![]), st("lw_rx_cont", vec![herr, done_rx]), st("lw_rx_cont", vec![done_rx]), st("lw_tx", vec![done_tx])],
+        vec![st("lw_setup_cont", vec![]), st("lw_rx_cont", vec![to_rx]), st("lw_tx", vec![done_tx])],
+        vec![st("lw_rx_single", vec![done_rx])],
+    ] } else { vec![
+        vec![st("prep_tx", vec![]), st("tx", vec![done_tx])],
+        vec![st("prep_tx", vec![]), st("tx", vec![to_tx])],
+        vec![st("prep_rx_single", vec![]), st("start_rx", vec![]), st("complete_rx", vec![done_rx])],
+        vec![st("prep_rx_single", vec![]), st("start_rx", vec![]), st("complete_rx", vec![to_rx])],
+        vec![st("prep_rx_cont", vec![]), st("start_rx", vec![]), st("complete_rx", vec![herr, to_rx])],
+        vec![st("prep_rx_duty", vec![]), st("start_rx", vec![]), st("complete_rx", vec![pre_rx, done_rx])],
         vec![st("prep_rx_cont", vec![]), st("start_rx", vec![]), st("switch_ch", vec![])],
-        vec![st("prep_cad", vec![]), st("cad", vec![IRQ_CAD_DONE])],
+        vec![st("prep_cad", vec![]), st("cad", vec![cad])],
         vec![st("listen", vec![])],
-        vec![st("sync_word", vec![]), st("prep_tx", vec![]), st("tx", vec![IRQ_TX_DONE])],
-    ];
-    for a1 in firsts {
-        for lo in losers {
-            for lo2 in ["", "sleep_cold"] {
+        vec![st("sync_word", vec![]), st("prep_tx", vec![]), st("tx", vec![done_tx])],
+    ] };
+    for a1 in &firsts {
+        for lo in &losers {
+            for lo2 in ["", lose2] {
                 for p in &pairs {
                     let mut t = vec![];
                     if !a1.is_empty() {
@@ -319,11 +479,11 @@ pub fn vh_phy(a: &Args) {
                         if lo.is_empty() {
                             continue;
                         }
-                        t.push(st("prep_rx_single", vec![]));
+                        t.push(st(reprep, vec![]));
                         t.push(st(lo2, vec![]));
                     }
                     t.extend(p.iter().cloned());
-                    run_history(out.shard(h), &t);
+                    run_history(out.shard(h), chip, &t);
                     h += 1;
                     nhist += 1;
                 }
@@ -331,11 +491,12 @@ pub fn vh_phy(a: &Args) {
         }
     }
     // fault / cancel at every bus position of the last call, after every prefix of length depth-1
-    let prefixes: Vec<Vec<Step>> = if depth <= 1 { vec![vec![]] } else { seqs.iter().filter(|s| s.len() == depth - 1).cloned().collect() };
+    let prefixes: Vec<Vec<Step>> = if fdepth <= 1 { vec![vec![]] } else { seqs.iter().filter(|s| s.len() == fdepth - 1).cloned().collect() };
+    let recover = if lw { "lw_setup_single" } else { "prep_tx" };
     for p in &prefixes {
         for x in &alpha {
             // how many bus events does the fault-free call produce?
-            let mut probe = PhyRun::new();
+            let mut probe = PhyRun::new(chip);
             let _ = probe.step(&Step { call: "new".into(), irq: vec![], fault: -1, cancel: false });
             for st in p {
                 let _ = probe.step(st);
@@ -348,8 +509,8 @@ pub fn vh_phy(a: &Args) {
                 f.fault = k as i32;
                 t.push(f);
                 // after the faulty call, one follow-up call shows whether the driver recovered
-                t.push(Step { call: "prep_tx".into(), irq: vec![], fault: -1, cancel: false });
-                run_history(out.shard(h), &t);
+                t.push(Step { call: recover.into(), irq: vec![], fault: -1, cancel: false });
+                run_history(out.shard(h), chip, &t);
                 h += 1;
                 nhist += 1;
             }
@@ -359,11 +520,12 @@ pub fn vh_phy(a: &Args) {
                 f.cancel = true;
                 t.push(f);
                 t.push(Step { call: "prep_tx".into(), irq: vec![], fault: -1, cancel: false });
-                run_history(out.shard(h), &t);
+                run_history(out.shard(h), chip, &t);
                 h += 1;
                 nhist += 1;
             }
         }
+    }
     }
     println!("events={} histories={nhist}", out.finish());
 }
@@ -373,7 +535,8 @@ pub fn vh_phyreplay(a: &Args) {
     let text = std::fs::read_to_string(a.get("in").expect("in=FILE")).unwrap();
     let v: Value = serde_json::from_str(&text).unwrap();
     let steps: Vec<Step> = serde_json::from_value(v["steps"].clone()).unwrap();
+    let chip = v["chip"].as_str().unwrap_or("sx1262").to_string();
     let mut out = Shards::create(&a.out, "phy", 1);
-    run_history(out.shard(0), &steps);
+    run_history(out.shard(0), &chip, &steps);
     println!("events={} histories=1", out.finish());
 }
